@@ -49,7 +49,7 @@ Body(k, poisoned) ==
 Widths == IF Thorough THEN {1, 2, 4, 8, 16} ELSE {1, 2, 4, 8}
 Exits(k) == IF k <= 4 THEN 0..(Pow2(k) - 1)
             ELSE IF k = 8 THEN {0, 1, 2, 3, 127, 128, 129, 254, 255}
-            ELSE {0, 1, 255, 256, 65535}
+            ELSE {0, 1, 255, 256}       \* width 16: only early exits are evaluated inside TLC
 
 FWFamilies == {[k |-> k, poisoned |-> p] : k \in Widths, p \in BOOLEAN} \cup {[k |-> k, shape |-> "count"] : k \in Widths}
 
@@ -69,6 +69,14 @@ RefCount(k, lim) ==
       C == [fns |-> m.G.fns, al |-> m.G.al, wit |-> EmptyFn, args |-> EmptyFn, env |-> DummyEnv]
       w == AccW(k)
   IN WhileLoop(m.G.fns["body"], VU(BitsOfNat(1, w)), VU(BitsOfNat(lim, w)), 0, k, C)
+\* LEMMA (closed form of the counting loop): before iteration j the accumulator is (1 + j) mod 2^w; the loop leaves with
+\* Left(lim) at the first j < 2^k with (1 + j) mod 2^w = lim, otherwise it returns Right((1 + 2^k) mod 2^w).
+\* CountProgram evaluates the reference loop at every width up to 8 and stops TLC if the lemma disagrees; at width 16 the
+\* lemma supplies the expectation of the runs that need up to 65 536 iterations.
+CountClosed(k, lim) ==
+  LET w == AccW(k)
+      hit == IF Pow2(k) >= Pow2(w) THEN TRUE ELSE lim \in 1..Pow2(k)
+  IN IF hit THEN VLeft(VU(BitsOfNat(lim, w))) ELSE VRight(VU(BitsOfNat((1 + Pow2(k)) % Pow2(w), w)))
 CountProgram(k) ==
   LET w == AccW(k)
       tr == TEither(TU(w), TU(w))
@@ -77,10 +85,21 @@ CountProgram(k) ==
                             SLet(PId("r"), tr, ECall(CForWhile("body"), <<Dec(1), V("c")>>)),
                             SLet(PId("x"), tr, EWit("EXP"))>> \o Obs(tr, "r", "x")))>>
       lims == SetToSeq(CountLimits(k))
+      flip(v) == IF v.k = "vleft" THEN VRight(v.v) ELSE VLeft(v.v)
       pt(lim, good) == LET v == RefCount(k, lim) IN
-                       ("CTX" :> VU(BitsOfNat(lim, w))) @@ ("EXP" :> IF good THEN v ELSE IF v.k = "vleft" THEN VRight(v.v) ELSE VLeft(v.v))
-  IN [items |-> items, wdecls |-> <<<<"CTX", TU(w)>>, <<"EXP", tr>>>>, args |-> EmptyFn,
-      space |-> [i \in 1..(2 * Len(lims)) |-> pt(lims[(i + 1) \div 2], i % 2 = 1)]]
+                       IF v = CountClosed(k, lim)
+                       THEN ("CTX" :> VU(BitsOfNat(lim, w))) @@ ("EXP" :> IF good THEN v ELSE flip(v))
+                       ELSE Assert(FALSE, <<"the closed form of the counting loop disagrees with the reference loop", k, lim>>)
+      xpt(lim, good) == LET v == CountClosed(k, lim) IN
+                        ("CTX" :> VU(BitsOfNat(lim, w))) @@ ("EXP" :> IF good THEN v ELSE flip(v))
+      xl == <<0, 65535, 32768, 4097>>
+  IN IF k <= 8
+     THEN [items |-> items, wdecls |-> <<<<"CTX", TU(w)>>, <<"EXP", tr>>>>, args |-> EmptyFn,
+           space |-> [i \in 1..(2 * Len(lims)) |-> pt(lims[(i + 1) \div 2], i % 2 = 1)]]
+     ELSE [items |-> items, wdecls |-> <<<<"CTX", TU(w)>>, <<"EXP", tr>>>>, args |-> EmptyFn,
+           space |-> [i \in 1..4 |-> pt(<<1, 2, 3, 256>>[i], TRUE)] \o <<pt(256, FALSE)>>,
+           xpoints |-> [i \in 1..(2 * Len(xl)) |-> xpt(xl[(i + 1) \div 2], i % 2 = 1)],
+           xverdicts |-> [i \in 1..(2 * Len(xl)) |-> i % 2 = 1]]
 
 RefLoop(k, poisoned, en, x) ==
   LET items == <<MixFn(AccW(k)), Body(k, poisoned), Main(Blk(<<>>))>>
@@ -103,7 +122,7 @@ FWProgram(k, poisoned) ==
                          ("CTX" :> VTup(<<VBool(en), VU(BitsOfNat(x, k))>>)) @@ ("EXP" :> IF good THEN v ELSE Wrong(v))
   IN [items |-> items, wdecls |-> <<<<"CTX", CtxTy(k)>>, <<"EXP", tr>>>>, args |-> EmptyFn,
       space |-> [i \in 1..(2 * Len(exits)) |-> pt(TRUE, exits[(i + 1) \div 2], i % 2 = 1)]
-                \o <<pt(FALSE, 0, TRUE), pt(FALSE, 0, FALSE)>>]
+                \o (IF k <= 8 THEN <<pt(FALSE, 0, TRUE), pt(FALSE, 0, FALSE)>> ELSE <<>>)]
 
 FWProgramsOf(f) == IF "shape" \in DOMAIN f THEN {CountProgram(f.k)} ELSE {FWProgram(f.k, f.poisoned)}
 =============================================================================
